@@ -419,9 +419,11 @@ pub fn format(source: &str) -> Result<String, Vec<error::Error<'_>>> {
     let errs: ErrorAccumulator = Default::default();
     let l = lexer::Lexer::new(source, errs.clone());
     let func_calls = cst::parse_using_lexer(l, errs.clone());
-    errs.check()?;
     let mut s = String::new();
     cst::pretty_print(&mut s, func_calls).expect("no errors writing to string");
+    // The CST is lazy: errors are only reported while it is being consumed by the
+    // pretty printer, so they have to be checked afterwards.
+    errs.check()?;
     Ok(s)
 }
 
